@@ -1,2 +1,92 @@
-(* C13 -- theorems are being added *)
-From ZK Require Import Cl.
+(* C13 -- CL03 signatures.  rug::Integer = Z, modular exponentiation proved equal to b^e mod n (ClArith).  good_key: 1 < N,
+   1 < phi, Euler's theorem for N as an explicit premise (true for N = p q; primality of generated p, q is GMP's), b, c
+   coprime to N. *)
+From ZK Require Import Cl ClArith ClSig.
+
+(* every signature sign_multiattr returns -- any number of attributes in [0, 2^lm), any bases coprime to N, any draws --
+   verifies *)
+Theorem C13_cl_sign_verify_complete :
+  forall (CS : clsuite) pk sk bases msgs ds sg ds',
+  good_key pk sk ->
+  Forall (fun a => Z.gcd a (pk_N pk) = 1%Z) bases ->
+  forallb (msg_in_range CS) msgs = true ->
+  sign_multiattr CS pk sk bases msgs ds = Ok (sg, ds') ->
+  verify_multiattr CS sg pk bases msgs = Ok true.
+Proof. exact cl_sign_verify_complete. Qed.
+Check (C13_cl_sign_verify_complete :
+  forall (CS : clsuite) pk sk bases msgs ds sg ds',
+  good_key pk sk ->
+  Forall (fun a => Z.gcd a (pk_N pk) = 1%Z) bases ->
+  forallb (msg_in_range CS) msgs = true ->
+  sign_multiattr CS pk sk bases msgs ds = Ok (sg, ds') ->
+  verify_multiattr CS sg pk bases msgs = Ok true).
+Print Assumptions C13_cl_sign_verify_complete.
+
+(* the exponent leaving the rejection loop has exactly le bits and is coprime to phi *)
+Theorem C13_e_loop_exit :
+  forall (CS : clsuite) ph ds e ds', e_loop CS ph ds = Ok (e, ds') ->
+  (two (le CS - 1) < e)%Z /\ (e < two (le CS))%Z /\ Z.gcd e ph = 1%Z.
+Proof. exact e_loop_exit. Qed.
+Check (C13_e_loop_exit :
+  forall (CS : clsuite) ph ds e ds', e_loop CS ph ds = Ok (e, ds') ->
+  (two (le CS - 1) < e)%Z /\ (e < two (le CS))%Z /\ Z.gcd e ph = 1%Z).
+Print Assumptions C13_e_loop_exit.
+
+(* F7: an attribute shifted by a non-zero multiple of e is refused, whatever v accompanies it (le >= lm + 2) *)
+Theorem C13_shift_forgery_rejected :
+  forall (CS : clsuite) sg pk bases msgs i k,
+  (two (le CS - 1) < s_e sg)%Z -> (lm CS + 1 <= le CS - 1)%Z -> (0 <= lm CS)%Z ->
+  (i < length msgs)%nat -> msg_in_range CS (nth i msgs 0%Z) = true -> k <> 0%Z ->
+  forall msgs', length msgs' = length msgs -> nth i msgs' 0%Z = (nth i msgs 0 + k * s_e sg)%Z ->
+  (length msgs' <= length bases)%nat ->
+  verify_multiattr CS sg pk bases msgs' = Ok false.
+Proof. exact shift_forgery_rejected. Qed.
+Check (C13_shift_forgery_rejected :
+  forall (CS : clsuite) sg pk bases msgs i k,
+  (two (le CS - 1) < s_e sg)%Z -> (lm CS + 1 <= le CS - 1)%Z -> (0 <= lm CS)%Z ->
+  (i < length msgs)%nat -> msg_in_range CS (nth i msgs 0%Z) = true -> k <> 0%Z ->
+  forall msgs', length msgs' = length msgs -> nth i msgs' 0%Z = (nth i msgs 0 + k * s_e sg)%Z ->
+  (length msgs' <= length bases)%nat ->
+  verify_multiattr CS sg pk bases msgs' = Ok false).
+Print Assumptions C13_shift_forgery_rejected.
+
+(* F14: v outside (0, N) is refused *)
+Theorem C13_noncanonical_v_rejected :
+  forall (CS : clsuite) sg pk bases msgs,
+  ((s_v sg <= 0)%Z \/ (pk_N pk <= s_v sg)%Z) -> (length msgs <= length bases)%nat ->
+  verify_multiattr CS sg pk bases msgs = Ok false.
+Proof. exact noncanonical_v_rejected. Qed.
+Check (C13_noncanonical_v_rejected :
+  forall (CS : clsuite) sg pk bases msgs,
+  ((s_v sg <= 0)%Z \/ (pk_N pk <= s_v sg)%Z) -> (length msgs <= length bases)%nat ->
+  verify_multiattr CS sg pk bases msgs = Ok false).
+Print Assumptions C13_noncanonical_v_rejected.
+
+Theorem C13_verify_multiattr_accepts :
+  forall (CS : clsuite) sg pk bases msgs,
+  verify_multiattr CS sg pk bases msgs = Ok true ->
+  (two (le CS - 1) < s_e sg)%Z /\ (0 < s_v sg < pk_N pk)%Z /\ forallb (msg_in_range CS) msgs = true /\
+  exists lhs r0 bs, pow_mod (s_v sg) (s_e sg) (pk_N pk) = Ok lhs /\ prod_pows bases msgs (pk_N pk) 1 = Ok r0 /\
+    pow_mod (pk_b pk) (s_s sg) (pk_N pk) = Ok bs /\ lhs = Z.rem (r0 * bs * pk_c pk) (pk_N pk).
+Proof. exact verify_multiattr_accepts. Qed.
+Check (C13_verify_multiattr_accepts :
+  forall (CS : clsuite) sg pk bases msgs,
+  verify_multiattr CS sg pk bases msgs = Ok true ->
+  (two (le CS - 1) < s_e sg)%Z /\ (0 < s_v sg < pk_N pk)%Z /\ forallb (msg_in_range CS) msgs = true /\
+  exists lhs r0 bs, pow_mod (s_v sg) (s_e sg) (pk_N pk) = Ok lhs /\ prod_pows bases msgs (pk_N pk) 1 = Ok r0 /\
+    pow_mod (pk_b pk) (s_s sg) (pk_N pk) = Ok bs /\ lhs = Z.rem (r0 * bs * pk_c pk) (pk_N pk)).
+Print Assumptions C13_verify_multiattr_accepts.
+
+(* the finding itself, machine-checked on the verifier of the pinned tree: (e, s, v*a) verified for m + e *)
+Theorem C13_shift_forgery_accepted_old :
+  exists pk bases m sg,
+  verify_multiattr_old f7_suite sg pk bases [m] = Ok true /\
+  verify_multiattr_old f7_suite {| s_e := s_e sg; s_s := s_s sg; s_v := ((s_v sg * nth 0 bases 0) mod pk_N pk)%Z |} pk bases [(m + s_e sg)%Z] = Ok true /\
+  verify_multiattr f7_suite {| s_e := s_e sg; s_s := s_s sg; s_v := ((s_v sg * nth 0 bases 0) mod pk_N pk)%Z |} pk bases [(m + s_e sg)%Z] = Ok false.
+Proof. exact shift_forgery_accepted_old. Qed.
+Check (C13_shift_forgery_accepted_old :
+  exists pk bases m sg,
+  verify_multiattr_old f7_suite sg pk bases [m] = Ok true /\
+  verify_multiattr_old f7_suite {| s_e := s_e sg; s_s := s_s sg; s_v := ((s_v sg * nth 0 bases 0) mod pk_N pk)%Z |} pk bases [(m + s_e sg)%Z] = Ok true /\
+  verify_multiattr f7_suite {| s_e := s_e sg; s_s := s_s sg; s_v := ((s_v sg * nth 0 bases 0) mod pk_N pk)%Z |} pk bases [(m + s_e sg)%Z] = Ok false).
+Print Assumptions C13_shift_forgery_accepted_old.
